@@ -50,8 +50,10 @@ def limit_df(df, fs, start=None, stop=None, reset_indices=True):
 
     # Ensure arguments are within valid range
     check_param_range(fs, 'fs', (0, np.inf))
-    check_param_range(start, 'start', (0, stop))
-    check_param_range(stop, 'stop', (start, np.inf))
+    if start is not None:
+        check_param_range(start, 'start', (0, np.inf if stop is None else stop))
+    if stop is not None:
+        check_param_range(stop, 'stop', (0 if start is None else start, np.inf))
 
     center_e, side_e = get_extrema_df(df)
 
